@@ -73,6 +73,11 @@ impl Check for AsyncCheck {
             c.unique = false;
             out.push(c);
         }
+        if case.same_waker {
+            let mut c = case.clone();
+            c.same_waker = false;
+            out.push(c);
+        }
         if case.main_owner {
             let mut c = case.clone();
             c.main_owner = false;
